@@ -82,3 +82,13 @@ Qed.
 (* the time-out handlers disarm the watchdog before notifying, in every chain *)
 Theorem timeout_handlers_reset : forallb (forallb resets_before_notify) nonempty_chains = true.
 Proof. exact chains_timeouts_reset. Qed.
+
+(* no entry point other than the known `get_<representation>` family stores the address of a temporary
+   through an output parameter (fact: g++ -Wdangling-pointer=2 on the regenerated sources) *)
+Theorem no_dangling_outputs_partial : forall n, In n dangling_outputs -> exempt_getter n = true.
+Proof. intros n H. pose proof dangling_only_getters as A. rewrite forallb_forall in A. exact (A n H). Qed.
+
+Theorem timeouts_reported_as_timeout_partial :
+  forallb (fun p => match snd p with CT_class c => ecode_eqb (documented_code c) TIMEOUT_EXCEPTION | _ => false end)
+          timeout_registrations = true.
+Proof. exact (proj1 timeout_registrations_timeout_class). Qed.
